@@ -307,14 +307,18 @@ func init() {
 		return ret1(st, TupleV{mkInt(int64(np)), IfaceV{}})
 	}
 
-	// flate: identity stream (decompression correctness is assumed)
+	// flate: a self-delimiting framing instead of real DEFLATE (decompression correctness is assumed).
+	// Like the real writer it buffers: Write only collects, Flush emits a chunk [hi lo data...], Close emits
+	// the pending chunk and the terminator [0 0].  The reader model (harness/rt) stops at the terminator, so
+	// bytes after the end of the stream are ignored and a stream cut short is an unexpected EOF, as with DEFLATE.
 	natives["compress/flate.NewWriter"] = func(w *Worker, st *State, args []Value, fv *FuncV, depth int) []Outcome {
 		level := concInt(args[1], "flate level")
 		if level < -2 || level > 9 {
 			e, s := w.fsError(st, fmt.Sprintf("flate: invalid compression level %d: want value in range [-2, 9]", level), depth)
 			return ret1(s, TupleV{PtrV{}, e})
 		}
-		id := st.alloc(&StructV{f: []Value{args[0]}})
+		buf := st.alloc(&ArrV{})
+		id := st.alloc(&StructV{f: []Value{args[0], SliceV{obj: buf}}})
 		return ret1(st, TupleV{PtrV{obj: id}, IfaceV{}})
 	}
 	natives["(*compress/flate.Writer).Write"] = func(w *Worker, st *State, args []Value, fv *FuncV, depth int) []Outcome {
@@ -322,13 +326,52 @@ func init() {
 		if p.isNil() {
 			return panicOut(st, "nil pointer dereference (*flate.Writer).Write")
 		}
-		dst := st.get(p.obj).(*StructV).f[0].(IfaceV)
-		return w.callMethod(st, dst, "Write", []Value{args[1]}, depth)
+		sv := st.get(p.obj).(*StructV)
+		old := w.sliceElems(st, sv.f[1].(SliceV))
+		src := w.sliceElems(st, args[1].(SliceV))
+		all := append(append([]Value{}, old...), src...)
+		buf := st.alloc(&ArrV{all})
+		st.set(p.obj, &StructV{f: []Value{sv.f[0], SliceV{obj: buf, len: len(all), cap: len(all)}}})
+		return ret1(st, TupleV{mkInt(int64(len(src))), IfaceV{}})
 	}
-	natives["(*compress/flate.Writer).Close"] = func(w *Worker, st *State, args []Value, fv *FuncV, depth int) []Outcome {
-		return ret1(st, IfaceV{})
+	flush := func(final bool) nativeFn {
+		return func(w *Worker, st *State, args []Value, fv *FuncV, depth int) []Outcome {
+			p := args[0].(PtrV)
+			if p.isNil() {
+				return panicOut(st, "nil pointer dereference (*flate.Writer)")
+			}
+			sv := st.get(p.obj).(*StructV)
+			data := w.sliceElems(st, sv.f[1].(SliceV))
+			var frame []Value
+			if len(data) > 0 {
+				if len(data) > 65535 {
+					unsupported("flate model: chunk of %d bytes", len(data))
+				}
+				frame = append(frame, mkInt(int64(len(data)>>8)), mkInt(int64(len(data)&255)))
+				frame = append(frame, data...)
+			}
+			if final {
+				frame = append(frame, mkInt(0), mkInt(0))
+			}
+			empty := st.alloc(&ArrV{})
+			st.set(p.obj, &StructV{f: []Value{sv.f[0], SliceV{obj: empty}}})
+			if len(frame) == 0 {
+				return ret1(st, IfaceV{})
+			}
+			fid := st.alloc(&ArrV{frame})
+			var outs []Outcome
+			for _, o := range w.callMethod(st, sv.f[0].(IfaceV), "Write", []Value{SliceV{obj: fid, len: len(frame), cap: len(frame)}}, depth) {
+				if o.pan != nil {
+					outs = append(outs, o)
+					continue
+				}
+				outs = append(outs, Outcome{st: o.st, ret: o.ret.(TupleV)[1]})
+			}
+			return outs
+		}
 	}
-	natives["(*compress/flate.Writer).Flush"] = natives["(*compress/flate.Writer).Close"]
+	natives["(*compress/flate.Writer).Close"] = flush(true)
+	natives["(*compress/flate.Writer).Flush"] = flush(false)
 
 	// harness access to the model file system
 	reg := func(name string, h nativeFn) { natives["intrinsic:"+name] = h }
